@@ -102,7 +102,7 @@ def run(ctx):
         return 1e-9 * (1 + scale)
 
     # ------------------------------------------------------------------------------ distance / interpolate_position
-    n = ctx.pick(600, 40000)
+    n = ctx.pick(600, 200000)
     for i, rng in ctx.cases("arc", n):
         poly, kind = gen_polyline(rng)
         if kind == "int-dtype":
@@ -164,7 +164,7 @@ def run(ctx):
                                   "s=%r got %s expected %s" % (s, got, e), {"poly": poly, "s": s})
 
     # ------------------------------------------------------------------------------------------------- merge_lanelets
-    n = ctx.pick(300, 20000)
+    n = ctx.pick(300, 80000)
     for i, rng in ctx.cases("merge", n):
         p1, k1 = gen_polyline(rng)
         p2, k2 = gen_polyline(rng)
@@ -237,7 +237,7 @@ def run(ctx):
                 yield nn, [e for k, e in enumerate(edges) if mask >> k & 1]
 
     small = list(graphs_upto(ctx.pick(3, 4)))
-    nrand = ctx.pick(300, 30000)
+    nrand = ctx.pick(300, 120000)
 
     def run_graph(nn, edges, lengths, tag, rng, curved=False):
         succ = {a: [] for a in range(nn)}
@@ -367,7 +367,7 @@ def run(ctx):
         run_graph(nn, edges, lengths, "random", rng, curved=(i % 2 == 1))
 
     # ------------------------------------------------------ all_lanelets_by_merging_* (merge along enumerated routes)
-    for i, rng in ctx.cases("merge-routes", ctx.pick(60, 3000)):
+    for i, rng in ctx.cases("merge-routes", ctx.pick(60, 15000)):
         k = rng.randint(2, 4)
         polys = []
         x = 0.0
